@@ -196,7 +196,7 @@ def _run_property(pid, tier, seed, logdir):
         from mirsym import props_cache, enums as _en
         structs = _en.scan_structs(REPO)
         shapes = [(1, 0, 0), (0, 1, 0), (0, 0, 1), (1, 1, 1), (0, 0, 0)] if tier == "quick" else \
-                 [(1, 0, 0), (0, 1, 0), (0, 0, 1), (1, 1, 1), (0, 0, 0), (2, 0, 1), (1, 2, 0), (2, 2, 2)]
+                 [(1, 0, 0), (0, 1, 0), (0, 0, 1), (1, 1, 1), (0, 0, 0), (2, 0, 1), (1, 2, 0), (2, 1, 1)]
         for shape in shapes:
             name = "c06_cache_lookup_sections_%d_%d_%d" % shape
             t0 = time.time()
